@@ -10,6 +10,8 @@ def run():
     tok_model(acc, ["A"], 3, invariants=["MarkerParen"], expect_violation="MarkerParen")
     tok_model(acc, ["A"], 5, invariants=["HyphenSplit"], expect_violation="HyphenSplit")
     tok_replay(v, acc, ["C", "D"], 4 if th else 3)
+    tok_model(acc, ["L"], 5 if th else 4)       # a word completed at a line break, then a notice or a marker line
+    tok_replay(v, acc, ["L"], 5 if th else 4)
     tables_leg(v, acc)                                    # list markers, interchangeable spellings, rewritten runes: the tables entry by entry
     recs, lines = trace_leg(v, acc, "c06", [PID])
     ps = [r for r in lines if r.get("ev") == "pair"]
